@@ -2,14 +2,17 @@ import ShmVerif.Props.C06
 /-!
   C08 — zero-copy read results stay valid until they are released.
 
-  PARTIAL proof. A zero-copy result of ReadBytes/Peek is a view `[lo, hi)` of the payload of one shared-memory slot.
+  PARTIAL proof (see the end of this comment). A zero-copy result of ReadBytes/Peek is a view `[lo, hi)` of the payload of one shared-memory slot.
   Proved: no BufferReader operation of the holder, no recycling of consumed slices, no ReleasePreviousRead ever changes a
   payload byte of ANY slot (`c08_reader_ops_preserve_payload`, `c08_release_preserves_payload`); a slice that has
   handed out a zero-copy view (`curPinned`) is parked in the pinned list, never recycled, when the reader moves past it
   (`c08_pinned_not_recycled`); ReleasePreviousRead empties the pinned list, returning those slots to the allocator
   (`c08_release_returns`).
-  NOT yet proved: that writes by OTHER holders cannot reach a parked slot — this needs the global ownership partition
-  of C09 (every slot outside the free lists is referenced by exactly one container); covered on the real code by the
+  `c08_writers_leave_foreign_payload`: writes by OTHER holders cannot reach a parked slot - any sequence of WriteBytes /
+  WriteByte calls on any send buffer touches only the payload of that buffer's own slices and of slots it takes from the
+  free lists (frame conclusion of the writer theorems of `Proof/LBWrite`).
+  NOT yet proved: the global ownership partition (every slot outside the free lists is referenced by exactly one
+  container) as ONE invariant over readers, writers and messages in flight; Reserve; covered on the real code by the
   borrow monitor (every outstanding view is re-compared after every later operation, including unrelated
   allocate-and-scribble).
 -/
@@ -85,5 +88,15 @@ theorem c08_release_returns (m : Mem) (l : LBuf) : (l.release m).2.pinned = [] :
     cases l.sl with
     | nil => rfl
     | cons f r => simp only [Bool.false_eq_true, if_false]; split <;> rfl
+
+/-- Writes by OTHER holders cannot reach a borrowed slice: whatever sequence of WriteBytes / WriteByte calls any send
+    buffer of the session performs - allocating from the free lists, spilling to the heap - the payload of a slot that is
+    neither one of that buffer's own slices nor in a free list is not touched.  A slice parked in a reader's pinned list
+    (`c08_pinned_not_recycled`) is exactly such a slot until ReleasePreviousRead returns it. -/
+theorem c08_writers_leave_foreign_payload (ops : List WriteOp) (m : Mem) (l : LBuf) (hw : m.WF) (hb : WBuf m l) :
+    ∃ m' l', wimpl m l ops = some (m', l') ∧
+      ∀ p, p ∉ l.sl.filterMap (·.slot) → p ∉ m.free.flatten → (m'.slot p).data = (m.slot p).data := by
+  obtain ⟨m', l', e, _, _, _, _, hfr⟩ := c06_writer_refines_bytequeue ops m l hw hb
+  exact ⟨m', l', e, hfr.data⟩
 
 end Props.C08
